@@ -19,7 +19,7 @@ let () = run_lines (fun toks ->
     (match op with
      | "irr" -> b2s (Model.is_irreducible p (poly_of a.(0)) p) ^ " #0"
      | "irr2" -> b2s (Model.is_irreducible2 p (poly_of a.(0)) p) ^ " #0"
-     | "irrb" -> b2s (Model.brute_irreducible p (poly_of a.(0))) ^ " #0"
+     | "irrb" -> b2s (Model.irreducible_b p (poly_of a.(0))) ^ " #0"
      | "border" -> let f = poly_of a.(1) in
        let n = List.length f - 1 in
        let rec pw b e = if e = 0 then ZA.one else ZA.mul b (pw b (e - 1)) in
